@@ -351,7 +351,17 @@ def replay(history, owners=('o1', 'o2', 'o3', 'o4')):
     root = tlc.scratch('verif-own-')
     logging.disable(logging.CRITICAL)       # the code logs every refusal; not wanted here
     try:
-        w = World(root, owners)
+        # the treadmill root is reached through a symbolic link, as it commonly is
+        # in a deployment (e.g. /var/tmp/treadmill -> /local/...): every history of
+        # even length runs that way, the others on the real path
+        # (the link sits at another depth than its target, so that a relative
+        # path computed from the unresolved name does not happen to work)
+        os.makedirs(os.path.join(root, 'vol', 'disk1', 'real'))
+        via = os.path.join(root, 'vol', 'disk1', 'real')
+        if len(history) % 2 == 0:
+            os.symlink(via, os.path.join(root, 'link'))
+            via = os.path.join(root, 'link')
+        w = World(via, owners)
         lines = [dict(ev='Init', args=[], res='ok', exc='', post=w.project())]
         with mock.patch.multiple(netdev, **w.net.patches()), \
                 mock.patch.object(iptables, '_ipset', w.ipset), \
